@@ -554,7 +554,7 @@ class JSONPathEnvironment:
             return self.is_truthy(left) or self.is_truthy(right)
         if operator == "==":
             return self._eq(left, right)
-        if operator == "!=":
+        if operator in ("!=", "<>"):
             return not self._eq(left, right)
         if operator == "<":
             return self._lt(left, right)
